@@ -20,6 +20,7 @@ import Knut.Driver.GoSem
 import Knut.Driver.GoSemTree
 import Knut.Driver.GoSemSyn
 import Knut.Driver.C09Cmd
+import Knut.Driver.C02
 import Knut.Driver.GoSemFmt
 /-! Line-protocol driver over the executable model: one request per line (`op field*`), one answer line.
 Each property contributes a handler module `Knut/Driver/<X>.lean`; add it to `handlers`. -/
@@ -48,6 +49,7 @@ def handlers : List (List String → Option String) := [
   Knut.Driver.GoSemTree.handle,
   Knut.Driver.GoSemSyn.handle,
   Knut.Driver.C09Cmd.handle,
+  Knut.Driver.C02.handle,
   Knut.Driver.GoSemFmt.handle
 ]
 
